@@ -257,6 +257,10 @@ func c06Run(c *vlib.Ctx, idx int, sc c06Scenario) {
 			waitQuiet(s, 2*time.Second, 6*time.Second)
 			obs.Goroutines = truncate(s.DumpGoroutines(), 6000)
 			dumped = true
+			if strings.Contains(s.LogTail(6000), stuckClientSignature) {
+				c.Violation("HANG", "scheduler-client-stuck-already-subscribed", fmt.Sprintf("%s did not return within %s; the core's log shows the reason: %s [scenario %d: %+v]", what, apiTimeout, stuckClientExplanation, idx, sc), id, obs)
+				return
+			}
 			fail("HANG", what+" did not return within "+apiTimeout.String()+" with the master quiescent")
 		}
 	}
